@@ -287,7 +287,8 @@ def main(pid, tier, seed):
         new_viol = []
         drift = []
         for v in result.get("violations", []):
-            cls = check.classify(v, kf) if hasattr(check, "classify") else ("violation", None)
+            cls = check.classify(v, kf) if hasattr(check, "classify") else (
+                ("drift", None) if v["invariant"].startswith(("Ref_", "Step_")) else ("violation", None))
             if cls[0] == "known":
                 known_hits.setdefault(cls[1], []).append(v)
             elif cls[0] == "drift":
